@@ -314,4 +314,171 @@ theorem multi_first_same (d : Dev) (rx : RxEngine) (prog : List Item) (elem root
     matchElemMultiFirst d rx prog elem root = matchElem d rx prog elem root := by
   simp [matchElemMultiFirst, h]
 
+/-! ## a sufficient condition on the data for `TrapFree` -/
+
+/-- a value of the finding's class: its type is comparable, `==` on it is not safe -/
+def isTrap (v : Val) : Bool := passesGuard v && isContainer v
+
+theorem devHit_current (o : Op) (l r : Val) (h : isTrap l = false) : devHit Dev.current o l r = false := by
+  have hu : (passesGuard l && uncomparablePair o l r) = false := by
+    cases hp : passesGuard l
+    · rfl
+    · have hc : isContainer l = false := by simpa [isTrap, hp] using h
+      have hs : ∀ y, sameContainer l y = false := fun y => sameContainer_noncontainer l y hc
+      cases o <;> simp [uncomparablePair, hs]
+      cases r <;> simp [hs]
+  simp [devHit, Dev.faultFlag, Dev.current, hu]
+
+theorem evalOp_not_trap (rx : RxEngine) (o : Op) (l r : Val) (h : isTrap l = false) :
+    isTrap (Spec.evalOp rx o l r) = false := by
+  have nt : ∀ v : Val, (∀ e, v ≠ .ext e) → isTrap v = false := by
+    intro v hv; cases v <;> simp_all [isTrap, passesGuard]
+  cases o <;> simp only [Spec.evalOp] <;> try exact h
+  all_goals first
+    | rfl
+    | (apply nt; intro e he; revert he
+       first
+        | (simp only [Spec.arith]; repeat' split) <;> simp [Spec.arithInt, Spec.arithFlt] <;> (repeat' split) <;> simp
+        | (repeat' split) <;> simp)
+
+
+def noTrapTm : Tm → Bool
+  | .const v => !isTrap v
+  | .path _ => true
+  | .app1 _ a => noTrapTm a
+  | .app2 _ a b => noTrapTm a && noTrapTm b
+
+theorem eval_not_trap (rx : RxEngine) (t : Tm) : noTrapTm t = true → isTrap (Spec.eval rx t) = false := by
+  induction t with
+  | const v => intro h; simpa [noTrapTm, Spec.eval] using h
+  | path p => intro _; rfl
+  | app1 o a iha => intro h; exact evalOp_not_trap rx o _ _ (iha h)
+  | app2 o a b iha _ => intro h; simp only [noTrapTm, Bool.and_eq_true] at h; exact evalOp_not_trap rx o _ _ (iha h.1)
+
+theorem clean_of_noTrapTm (rx : RxEngine) (t : Tm) : noTrapTm t = true → Clean Dev.current rx t = true := by
+  induction t with
+  | const v => intro _; rfl
+  | path p => intro _; rfl
+  | app1 o a iha =>
+    intro h
+    simp only [Clean, Bool.and_eq_true, Bool.not_eq_eq_eq_not, Bool.not_true]
+    exact ⟨iha h, devHit_current o _ _ (eval_not_trap rx a h)⟩
+  | app2 o a b iha ihb =>
+    intro h
+    simp only [noTrapTm, Bool.and_eq_true] at h
+    by_cases hc : o.cnt = 1
+    · simp only [Clean, hc, ↓reduceIte, Bool.and_eq_true, Bool.not_eq_eq_eq_not, Bool.not_true]
+      exact ⟨iha h.1, devHit_current o _ _ (eval_not_trap rx a h.1)⟩
+    · simp only [Clean, hc, ↓reduceIte, Bool.and_eq_true, Bool.not_eq_eq_eq_not, Bool.not_true]
+      exact ⟨⟨iha h.1, ihb h.2⟩, devHit_current o _ _ (eval_not_trap rx a h.1)⟩
+
+theorem norm_not_trap (v : Val) (h : isTrap v = false) : isTrap v.norm = false := by
+  cases v <;> try exact h
+  case ext e =>
+    simp only [Val.norm]
+    cases hc : e.core <;> first | rfl | (simpa [hc] using h)
+
+/-- the data in play: no constant of the script and no value one of its paths selects is of the finding's
+class (a struct/array value of comparable type holding a slice or map in an interface-typed field) -/
+def noTrapIn (elem root : Val) : Tm → Prop
+  | .const v => isTrap v = false
+  | .path p => ∀ v ∈ Spec.sel p elem root, isTrap v = false
+  | .app1 _ a => noTrapIn elem root a
+  | .app2 _ a b => noTrapIn elem root a ∧ noTrapIn elem root b
+
+theorem choices_noTrap (elem root : Val) (t : Tm) :
+    noTrapIn elem root t → ∀ c ∈ Spec.choices elem root t, noTrapTm c = true := by
+  induction t with
+  | const v =>
+    intro h c hc
+    simp only [Spec.choices, List.mem_singleton] at hc
+    subst hc
+    simpa [noTrapTm, noTrapIn] using h
+  | path p =>
+    intro h c hc
+    simp only [Spec.choices, List.mem_map] at hc
+    obtain ⟨v, hv, rfl⟩ := hc
+    simp only [noTrapTm, Bool.not_eq_eq_eq_not, Bool.not_true]
+    simp only [noTrapIn] at h
+    unfold Spec.candidates at hv
+    cases hs : Spec.sel p elem root with
+    | nil => rw [hs] at hv; simp at hv; subst hv; rfl
+    | cons w r =>
+      rw [hs] at hv h
+      by_cases hn : Spec.Path.normal p = true
+      · simp only [hn, ↓reduceIte, List.mem_singleton] at hv
+        subst hv
+        exact norm_not_trap w (h w (by simp))
+      · simp only [hn, Bool.false_eq_true, ↓reduceIte, List.mem_map] at hv
+        obtain ⟨u, hu, rfl⟩ := hv
+        exact norm_not_trap u (h u hu)
+  | app1 o a iha =>
+    intro h c hc
+    simp only [Spec.choices] at hc
+    by_cases hco : o = .count
+    · subst hco
+      simp only [↓reduceIte] at hc
+      cases a with
+      | path p => simp only [List.mem_singleton] at hc; subst hc; rfl
+      | const v => simp only [List.mem_singleton] at hc; subst hc; rfl
+      | app1 o' a' => simp only [List.mem_singleton] at hc; subst hc; rfl
+      | app2 o' a' b' => simp only [List.mem_singleton] at hc; subst hc; rfl
+    · simp only [hco, ↓reduceIte, List.mem_map] at hc
+      obtain ⟨c', hc', rfl⟩ := hc
+      exact iha h c' hc'
+  | app2 o a b iha ihb =>
+    intro h c hc
+    simp only [Spec.choices, List.mem_flatMap, List.mem_map] at hc
+    obtain ⟨a', ha', b', hb', rfl⟩ := hc
+    simp only [noTrapTm, Bool.and_eq_true]
+    exact ⟨iha h.1 a' ha', ihb h.2 b' hb'⟩
+
+theorem noTrapIn_normalise (elem root : Val) (t : Tm) (h : noTrapIn elem root t) :
+    noTrapIn elem root (Spec.normalise t) := by
+  cases t with
+  | path p => exact ⟨h, rfl⟩
+  | const v => exact h
+  | app1 o a => exact h
+  | app2 o a b => exact h
+
+/-- sufficient condition on the DATA for the hypothesis `TrapFree`: no constant of the script and no value one
+of its paths selects is of the finding's class -/
+theorem trapFree_of_data (rx : RxEngine) (t : Tm) (elem root : Val) (h : noTrapIn elem root t) :
+    TrapFree rx t elem root :=
+  fun c hc => clean_of_noTrapTm rx c (choices_noTrap elem root _ (noTrapIn_normalise elem root t h) c hc)
+
+/-- hence: on data without such values Script.Match of every well-formed script is the specified verdict -/
+theorem script_spec_current_of_data (rx : RxEngine) (t : Tm) (hwf : t.wf = true) (elem root : Val)
+    (h : noTrapIn elem root t) :
+    matchElem Dev.current rx (compile true t) elem root = .ok (Spec.matches rx t elem root) :=
+  script_spec_current_partial rx t hwf elem root (trapFree_of_data rx t elem root h)
+
+/-- non-trivial instance: `@.a == @.b` where both members are `[]int` (typed containers are not of the class) -/
+example : noTrapIn (.obj [([97], .ext ⟨40, false, 0, .none, false⟩), ([98], .ext ⟨40, false, 1, .none, false⟩)]) .null
+    (.app2 .eq (.path ⟨false, [.child [97]]⟩) (.path ⟨false, [.child [98]]⟩)) := by
+  refine ⟨?_, ?_⟩ <;> intro v hv
+  · have : Spec.sel ⟨false, [.child [97]]⟩ (.obj [([97], .ext ⟨40, false, 0, .none, false⟩), ([98], .ext ⟨40, false, 1, .none, false⟩)]) .null
+        = [.ext ⟨40, false, 0, .none, false⟩] := rfl
+    rw [this] at hv; simp at hv; subst hv; rfl
+  · have : Spec.sel ⟨false, [.child [98]]⟩ (.obj [([97], .ext ⟨40, false, 0, .none, false⟩), ([98], .ext ⟨40, false, 1, .none, false⟩)]) .null
+        = [.ext ⟨40, false, 1, .none, false⟩] := rfl
+    rw [this] at hv; simp at hv; subst hv; rfl
+
+/-- the filter route on such data -/
+theorem filter_spec_current_of_data (rx : RxEngine) (t : Tm) (hwf : t.wf = true) (elem root : Val)
+    (hdata : ∀ p, t = .path p → NoNothing (Spec.sel p elem root)) (h : noTrapIn elem root t) :
+    matchElem Dev.current rx (compile false t) elem root = .ok (Spec.matches rx t elem root) :=
+  filter_spec_current_partial rx t hwf elem root hdata (trapFree_of_data rx t elem root h)
+
+/-- THE CLAUSE on such data: `$[?script]` applied to `xs` returns exactly, in order, the elements on which
+`Script.Match` is true — for every well-formed script without a `$` path, with hypotheses on the data only -/
+theorem match_iff_in_filter_of_data (rx : RxEngine) (t : Tm) (hwf : t.wf = true) (hrf : rootFree t = true) (xs : List Val)
+    (hdata : ∀ v ∈ xs, ∀ p, t = .path p → NoNothing (Spec.sel p v v))
+    (h : ∀ v ∈ xs, noTrapIn v v t) :
+    filterGet Dev.current rx (compile false t) (.arr xs) =
+        .ok (xs.filter fun v => isOkTrue (matchElem Dev.current rx (compile true t) v v)) ∧
+    ∀ res, filterGet Dev.current rx (compile false t) (.arr xs) = .ok res →
+      ∀ v, v ∈ res ↔ (v ∈ xs ∧ matchElem Dev.current rx (compile true t) v v = .ok true) :=
+  match_iff_in_filter rx t hwf hrf xs hdata (fun v hv => trapFree_of_data rx t v v (h v hv))
+
 end OjgVerif.C12
